@@ -366,3 +366,13 @@ Definition CQ_ops : cops CQ := {|
 (* a frequency is given by the point u = e^{jw} of the unit circle (rational coordinates);
    cexp(-1j * n * w) = conj(u) ** n *)
 Definition CQ_cx (n : Z) (u : CQ) : CQ := cpowz CQ_ops (fst u, (- snd u)%Qc) n.
+
+(* ------------------------------------------------- rationals (instance) *)
+(* the instance on which this model is proved to be the same function as the models of
+   Poly.__call__ in C07 and of LinearFilter.__call__ in C04 (ProofsC07.v, ProofsC04.v) *)
+Definition Qc_ops : cops Qc := {|
+  c0 := 0%Qc; c1 := 1%Qc;
+  cadd := Qcplus; cmul := Qcmult; csub := Qcminus; copp := Qcopp; cdiv := Qcdiv; cinv := Qcinv;
+  cofz := fun z => Q2Qc (inject_Z z);
+  ceqb := Qc_eqb
+|}.
